@@ -67,6 +67,14 @@ func childMain() {
 			continue
 		}
 		impl, oracle := safeLocal(line)
+		// a stage goroutine that is panicking closes its channels (deferred) before the process dies:
+		// leave it the time to die, so that the crash is attributed to this case and not to the next
+		switch op := strings.Fields(line)[0]; {
+		case strings.Contains(impl, "dropped") && (op == "gdkg" || op == "xpub" || op == "stage" || op == "rsign"):
+			time.Sleep(25 * time.Millisecond)
+		case op == "rid" || op == "rsign" || op == "listen" || op == "dpipe" || op == "qloop" || op == "gdkg" || op == "xpub" || op == "stage" || strings.HasPrefix(op, "fz"):
+			time.Sleep(2 * time.Millisecond)
+		}
 		fmt.Fprintf(out, "%s%s\t%s\n", marker, impl, oracle)
 	}
 }
@@ -100,10 +108,11 @@ var frameRe = regexp.MustCompile(`^(github\.com/DOSNetwork/core/[A-Za-z0-9_/]+)\
 // "" if the frame is not in one of the anchored packages.
 func normFrame(fn string) string {
 	fn = strings.TrimSpace(fn)
-	if i := strings.Index(fn, "(0x"); i > 0 { // stack dump: name(args)
-		fn = fn[:i]
+	if strings.HasSuffix(fn, ")") { // stack dump: name(args) – the argument list is the last parenthesised group
+		if i := strings.LastIndex(fn, "("); i > 0 && !strings.HasSuffix(fn[:i], ".") {
+			fn = fn[:i]
+		}
 	}
-	fn = strings.TrimSuffix(fn, "(...)")
 	m := frameRe.FindStringSubmatch(fn)
 	if m == nil {
 		return ""
@@ -123,8 +132,11 @@ func normFrame(fn string) string {
 		}
 		keep = append(keep, p)
 	}
-	if len(keep) == 0 || strings.HasPrefix(keep[len(keep)-1], "Verif") {
+	if len(keep) == 0 {
 		return ""
+	}
+	if last := keep[len(keep)-1]; strings.HasPrefix(last, "Verif") && len(last) > 5 && last[5] >= 'A' && last[5] <= 'Z' {
+		return "" // a verification hook (VerifXxx), not repository code
 	}
 	return pk + "." + strings.Join(keep, ".")
 }
